@@ -361,6 +361,10 @@ fn sweep(te: &Te, rt: &tokio::runtime::Runtime, model: &BTreeMap<u64, Vec<f32>>,
     }
 }
 
+pub fn normalise_for_pub(metric: DistanceMetric, q: &[f32]) -> Vec<f32> {
+    normalise_for(metric, q)
+}
+
 fn normalise_for(metric: DistanceMetric, q: &[f32]) -> Vec<f32> {
     if matches!(metric, DistanceMetric::Euclidean) {
         return q.to_vec();
@@ -578,6 +582,20 @@ pub fn run(tier: &str, replay: Option<&str>) -> i32 {
     if let Some(p) = replay {
         return run_replay(p);
     }
+    if let Some((wi, wn)) = vcore::par::worker_id() {
+        // concurrent slice worker process (the scheduler is process-global)
+        let bound: usize = if tier == "thorough" { 3 } else { 2 };
+        let max_execs: usize = if tier == "thorough" { 200_000 } else { 30_000 };
+        let mut rs = crate::c06r::RStats::default();
+        for (i, p) in crate::c06r::programs(tier).iter().enumerate() {
+            if i % wn != wi {
+                continue;
+            }
+            crate::c06r::check_program(p, bound, max_execs, &mut rs);
+        }
+        vcore::par::worker_emit(&json!({"programs":rs.programs,"executions":rs.executions,"points":rs.points,"capped":rs.capped,"incomplete":rs.incomplete,"pairs":rs.judged_pairs,"outcomes":rs.outcomes.iter().collect::<Vec<_>>(),"violations":rs.viol.to_json()}));
+        return 0;
+    }
     let thorough = tier == "thorough";
     let depth: usize = std::env::var("C06_DEPTH").ok().and_then(|s| s.parse().ok()).unwrap_or(if thorough { 4 } else { 3 });
     // one job per (metric, dim, scale, first letter) + one per (metric, dim, scale) for the long
@@ -649,6 +667,23 @@ pub fn run(tier: &str, replay: Option<&str>) -> i32 {
     ev.set("large_batch", json!({"batch_sizes": large_batch_sizes(), "items_checked": tot.large_batch_items, "rule": "metric x dim {3,9}: 40 drained documents + 3 recent writes + an overwrite + a delete; one batch search per size (sizes straddle the cold tier's internal chunk = max(32, 8 x rayon threads)) x (k,ef) {(5,default),(1,64)} through TieredEngine::knn_search_batch and HnswBackend::knn_search_batch; every item passes the soundness oracle for ITS query and carries the distances of a single search for that query"}));
     let mut rep = Reporter::new("C06");
     rep.report_sigbag(&tot.viol);
+    // concurrent slice: search racing a compaction-triggering insert, in worker processes
+    {
+        let rres = vcore::par::run_workers(vcore::par::jobs(), &[]);
+        let mut rt: BTreeMap<&str, u64> = BTreeMap::new();
+        let mut routcomes: BTreeSet<String> = BTreeSet::new();
+        for r in &rres {
+            for k in ["programs", "executions", "points", "capped", "incomplete", "pairs"] {
+                *rt.entry(k).or_insert(0) += r[k].as_u64().unwrap_or(0);
+            }
+            for o in r["outcomes"].as_array().unwrap() {
+                routcomes.insert(o.as_str().unwrap_or("").to_string());
+            }
+            rep.report_bag(&r["violations"]);
+        }
+        ev.set("concurrent_slice", json!({"programs": rt["programs"], "scheduled_executions": rt["executions"], "scheduling_points": rt["points"], "programs_capped": rt["capped"], "executions_not_completed": rt["incomplete"], "judged_result_pairs": rt["pairs"], "distinct_answers": routcomes.len(),
+            "rule": "beyond the statement's sequential quantifier: one searcher (knn_search, knn_search_batch, HnswBackend::knn_search, HnswBackend::knn_search_batch; k 1 and 3) x one writer (insert of a new id / overwrite) on a FULL capacity-3 index whose slot 0 is a tombstone, so the write runs tombstone compaction, which renumbers the internal ids the search maps back to documents after it has released the index lock; every schedule with <= 2 (3) preemptions at lock granularity; every returned (document, distance) pair must be the true distance to a version of THAT document that existed during the race"}));
+    }
     ev.set("states", tot.states.len() as u64);
     ev.set("transitions", tot.searches);
     ev.set("traces_validated_against_impl", tot.histories);
